@@ -592,6 +592,8 @@ type gateStep struct {
 	evals                            int
 	nextID                           int
 	unmodelled                       bool
+	lateReleases                     int
+	lateReleasesWithRebalance        int
 }
 
 func (s *gateStep) logf(f string, a ...any) { s.log = append(s.log, fmt.Sprintf(f, a...)) }
@@ -712,6 +714,34 @@ func (s *gateStep) step(rng *rand.Rand) {
 		s.holding = append(s.holding[:i], s.holding[i+1:]...)
 		g.cmd <- 1
 		s.settle(fmt.Sprintf("poller #%d UnaddPoller", g.id))
+	case op < 8 && rng.IntN(2) == 0 && len(s.holding) > 0:
+		// AllowRebalance while the holders' poll calls are still in flight, and
+		// their UnaddPoller arriving afterwards. The source calls this a contract
+		// violation that the gate tolerates: AllowRebalance zeroes the poller
+		// count and "a poller whose accounting was force-cleared simply no-ops its
+		// release". The late releases are issued only while the model's poller
+		// count is zero (otherwise they would take a fresh poller's hold, which
+		// nothing promises to survive), so they must change nothing: everything
+		// judged afterwards is judged as if they had not happened.
+		cleared := s.holding
+		s.holding = nil
+		s.gate.AllowRebalance()
+		s.settle(fmt.Sprintf("AllowRebalance with %d poll(s) still in flight", len(cleared)))
+		if len(s.holding) == 0 {
+			for _, g := range cleared {
+				g.cmd <- 1
+			}
+			s.lateReleases += len(cleared)
+			if len(s.waitR)+len(s.activR) > 0 {
+				s.lateReleasesWithRebalance += len(cleared)
+			}
+			s.settle(fmt.Sprintf("late UnaddPoller of %d force-cleared poller(s)", len(cleared)))
+		} else {
+			for _, g := range cleared {
+				g.cmd <- 2
+			}
+			synctest.Wait()
+		}
 	case op < 8: // AllowRebalance: all holders are done
 		for _, g := range s.holding {
 			g.cmd <- 2
@@ -1293,7 +1323,7 @@ func TestCheck(t *testing.T) {
 	}
 
 	// 1. stepped gate scenarios against the gate model (bubble)
-	var gs struct{ runs, evals, unmodelled atomic.Int64 }
+	var gs struct{ runs, evals, unmodelled, late, lateReb atomic.Int64 }
 	vh.Parallel(r.Pick(6000, 150000), workers, func(i int) {
 		if stop.Load() || !on("gatestep") {
 			return
@@ -1301,6 +1331,8 @@ func TestCheck(t *testing.T) {
 		s := runGateStep(t, r.Rand("c31-gatestep", i))
 		gs.runs.Add(1)
 		gs.evals.Add(int64(s.evals))
+		gs.late.Add(int64(s.lateReleases))
+		gs.lateReb.Add(int64(s.lateReleasesWithRebalance))
 		r.Eval(s.evals)
 		if s.unmodelled {
 			gs.unmodelled.Add(1)
@@ -1442,6 +1474,8 @@ func TestCheck(t *testing.T) {
 	r.Count("gate_stepped_scenarios", int(gs.runs.Load()))
 	r.Count("gate_stepped_expectations_judged", int(gs.evals.Load()))
 	r.Count("gate_stepped_unmodelled", int(gs.unmodelled.Load()))
+	r.Count("gate_stepped_late_unaddpoller_after_allowrebalance", int(gs.late.Load()))
+	r.Count("gate_stepped_late_unaddpoller_with_rebalance_registered", int(gs.lateReb.Load()))
 	r.Count("gate_workloads_realtime", int(gf.rt.Load()))
 	r.Count("gate_workloads_bubble", int(gf.bubble.Load()))
 	r.Count("gate_workloads_concurrent_polls", int(gf.concurrent.Load()))
@@ -1464,9 +1498,9 @@ func TestCheck(t *testing.T) {
 	}
 
 	r.Finish("exploration",
-		"cases: (1) stepped gate scenarios in synctest bubbles: random sequences of fresh pollers, rebalances, UnaddPoller, AllowRebalance, UnaddRebalance, every goroutine compared with a sequential gate model at each quiescence point; (2) free-running contract-following gate workloads (1-4 pollers polling in batches with empty/record results, 1-3 rebalancers, optional extra AllowRebalance callers) in bubbles and in real time with shadow occupancy counters; (3) stepped and free-running Mutex/RWMutex workloads (lockers, readers, TryLock/TryRLock) with shadow counters, porcupine and bubble deadlock detection; (4) a BlockRebalanceOnPoll group consumer pair against kfake. One evaluation = one judged expectation at a quiescence point, one judged free-running workload, or one judged revoke/lost callback. Non-trivial: a poller's hold overlapped a rebalance's wait/critical section (gate) or two sessions with at least one exclusive overlapped (locks); distinct by hash of (op kinds, call/return order, goroutine renaming)",
+		"cases: (1) stepped gate scenarios in synctest bubbles: random sequences of fresh pollers, rebalances, UnaddPoller, AllowRebalance (also with polls still in flight whose UnaddPoller arrives afterwards, which the gate must treat as a no-op), UnaddRebalance, every goroutine compared with a sequential gate model at each quiescence point; (2) free-running contract-following gate workloads (1-4 pollers polling in batches with empty/record results, 1-3 rebalancers, optional extra AllowRebalance callers) in bubbles and in real time with shadow occupancy counters; (3) stepped and free-running Mutex/RWMutex workloads (lockers, readers, TryLock/TryRLock) with shadow counters, porcupine and bubble deadlock detection; (4) a BlockRebalanceOnPoll group consumer pair against kfake. One evaluation = one judged expectation at a quiescence point, one judged free-running workload, or one judged revoke/lost callback. Non-trivial: a poller's hold overlapped a rebalance's wait/critical section (gate) or two sessions with at least one exclusive overlapped (locks); distinct by hash of (op kinds, call/return order, goroutine renaming)",
 		"schedules are those the Go scheduler produces on this machine under delay injection; 'all interleavings' is not reached",
-		"only usages that follow the documented contract are generated: AllowRebalance is called only when no poll is in flight and every record-returning poll is done; no goroutine holds two locks; no recursive read locking",
+		"free-running workloads follow the documented contract (AllowRebalance only when no poll is in flight and every record-returning poll is done); the stepped scenarios additionally issue the tolerated violation (AllowRebalance with polls in flight, late UnaddPoller) but only while the model's poller count is zero; no goroutine holds two locks; no recursive read locking",
 		"a fresh poller arriving while another poller holds and a rebalance waits is not judged (the statement does not say whether it may enter)",
 		"a failing TryLock/TryRLock is not a violation by itself; only a success while the lock is held in a conflicting mode is",
 		"a real-time workload that does not finish within the wall-clock grace is reported inconclusive, never as a violation; deadlock verdicts come only from synctest bubbles",
